@@ -688,7 +688,10 @@ inline Res exec_getopt(const Args &a) {
   size_t total = 0;
   for (size_t i = 0; i < argc; i++) total += a.s[i].size();
   if (total > 120) oe = 0;  // getopt's warnings quote argv[0] and the option: keep the logs small
-  char **argv = (char **)malloc((argc + 1) * sizeof(char *));
+  // one vector in two has exactly argc slots (a sub-vector, or a vector the caller assembled): the interface takes a count and never
+  // promises to find a NULL behind the last word, so argv[argc] is outside the input
+  bool exact = argc > 0 && ((fnv64(a.s[argc - 1]) >> 4) & 1);
+  char **argv = (char **)malloc((argc + (exact ? 0 : 1)) * sizeof(char *));
   if (!argv) abort();
   // one vector in three lives in read-only memory (string literals, a const table): the parser gets `char * const argv[]` and has no
   // business writing to the strings, not even temporarily
@@ -711,7 +714,8 @@ inline Res exec_getopt(const Args &a) {
     r.c("argv-in-read-only-memory");
   } else
     for (size_t i = 0; i < argc; i++) argv[i] = cblock(a.s[i]);
-  argv[argc] = nullptr;
+  if (!exact) argv[argc] = nullptr;
+  else r.c("argv-of-exactly-argc-pointers");
   int nopts = 0, nargs = 0, ndef = 0, oi = 0;
   char msg[SHIM_MSG];
   // one parse in four is abandoned after 1..4 labels (a caller that stops at the first unknown option): the strings are then
